@@ -82,9 +82,14 @@ Go(p, c) == pend' = p /\ cont' = c
 Idle == pend = <<>>
 Rest1 == <<stage, state, prevStage, notif>>
 
+\* The non-blocking receive.  ProvideStageInput announces the input (deployInputAvailable, state) under the step lock and
+\* puts it into the channel afterwards, so the receive can miss an input that is already announced: the step then keeps
+\* its state (engine repair e57f46d: it declares waiting only if no input was announced) and picks the input up - or
+\* notices its cancelled context, whichever the select takes - at the blocking receive (TryDMissLate).
 TryD == /\ Idle /\ cont = "tryD"
-        /\ IF slotD = 1 THEN slotD' = 0 /\ Go(<<SetSt("running")>>, "deploy")
-                        ELSE U(slotD) /\ Go(<<SetSt("waiting_for_input")>>, "awaitD")
+        /\ \/ slotD = 1 /\ slotD' = 0 /\ Go(<<SetSt("running")>>, "deploy")
+           \/ slotD = 1 /\ U(slotD) /\ Go(<<SetSt(state)>>, "awaitD")
+           \/ slotD = 0 /\ U(slotD) /\ Go(<<SetSt("waiting_for_input")>>, "awaitD")
         /\ U(<<slotE, slotR, availD, availE, availR, nProv, cancelledFlag, closedFlag, cpc, refused>>)
         /\ U(<<ctx, conn, exec, execRes, sigNil, sigQ, resQ, wg, plugin>>) /\ U(Rest1)
 AwaitD == /\ Idle /\ cont = "awaitD"
